@@ -5,6 +5,7 @@
   as `RewardBallotWinners` computes it - per denomination and, as an invariant, over every history.
 -/
 import SettlusModel.Proofs.DistrInv
+import SettlusModel.Generated.Facts
 namespace Settlus.C14
 open Settlus
 
@@ -64,5 +65,10 @@ example :
     let s := run (fun x => x) (initState 1000000 true) ops
     s.bank .distr "uusdc".toList = 5 ∧ liabilities s.distr "uusdc".toList s.vals.length = 5000000000000000000 ∧ s.bank .pool "uusdc".toList = 0 := by
   decide +kernel
+
+/-- no bank send can put coins into a module account behind the accounting of the modules: every module account is on the bank's blocked
+list (read off `BlockedModuleAccountAddrs` on every run); the ante model's `send` to a module account accordingly fails in the handler -/
+theorem module_accounts_receive_no_sends : Facts.moduleAccountsBlocked = true := by decide
+
 
 end Settlus.C14
